@@ -84,8 +84,20 @@ def fmtKind (s : State) (k : Kind) : String :=
 
 def fmtState (s : State) : String := ";".intercalate (kinds.map (fmtKind s))
 
+def hexDigit64 (n : UInt64) : Char :=
+  if n < 10 then Char.ofNat (48 + n.toNat) else Char.ofNat (87 + n.toNat)
+
+/-- FNV-1a-64 of the (ASCII) string, as 16 hex digits. -/
+def fnv64 (s : String) : String :=
+  let h := s.toList.foldl (fun (h : UInt64) c => (h ^^^ c.toNat.toUInt64) * 0x00000100000001b3)
+    0xcbf29ce484222325
+  String.ofList ((List.range 16).map (fun i => hexDigit64 ((h >>> (4 * (15 - i)).toUInt64) &&& 0xf)))
+
+/-- Entries longer than 160 bytes are printed as `#<hash>` (same rule in the harness). -/
+def compact (s : String) : String := if s.length ≤ 160 then s else "#" ++ fnv64 s
+
 def fmtChanged (a b : State) : String :=
-  ";".intercalate ((kinds.filter (fun k => a.get k != b.get k)).map (fmtKind b))
+  compact (";".intercalate ((kinds.filter (fun k => a.get k != b.get k)).map (fmtKind b)))
 
 def fmtErr : ErrClass → String
   | .prot => "protected" | .invalid => "invalid" | .unknown => "unknown" | .order => "order"
